@@ -617,13 +617,27 @@ def run_property(
     notes: List[str] = []
     for rdef in rdefs:
         ctx = Ctx(repo, rdef, tier)
-        try:
-            rdef.fn(ctx)
-        except AnalysisError as exc:
-            errors.append(f"{rdef.rid}: {exc}")
-        except Exception as exc:  # checker bug: never a silent pass
-            tb = traceback.format_exc(limit=6)
-            errors.append(f"{rdef.rid}: checker crashed: {exc!r}\n{tb}")
+        # a scoped lint scans the whole package whatever the property is: when one
+        # Repo object serves several properties (self-test, mutant scans) scan once
+        memo = repo.__dict__.setdefault("_scoped_memo", {}) if rdef.scoped else None
+        if memo is not None and (rdef.rid, tier) in memo:
+            insts, notes_, assum_, err_ = memo[(rdef.rid, tier)]
+            ctx.instances, ctx.notes, ctx.assumptions = list(insts), list(notes_), list(assum_)
+            if err_:
+                errors.append(err_)
+        else:
+            err_ = None
+            try:
+                rdef.fn(ctx)
+            except AnalysisError as exc:
+                err_ = f"{rdef.rid}: {exc}"
+            except Exception as exc:  # checker bug: never a silent pass
+                tb = traceback.format_exc(limit=6)
+                err_ = f"{rdef.rid}: checker crashed: {exc!r}\n{tb}"
+            if err_:
+                errors.append(err_)
+            if memo is not None:
+                memo[(rdef.rid, tier)] = (list(ctx.instances), list(ctx.notes), list(ctx.assumptions), err_)
         n = len(ctx.instances)
         if rdef.scoped:
             # a generic lint runs over the whole package (so that the instance
